@@ -4,7 +4,7 @@ operations can refer to ids and prefixes that exist; the recorded lines are then
 from .impl import hx, brack, unx
 
 LONG = [73, 74, 75, 76, 147, 148, 149, 150, 221, 222, 223, 296, 300]
-G2_BYTES = [0x00, 0x01, 0x7B, 0x7D, 0x41, 0x61, 0xFF, 0x80, 0x3A, 0x6D]
+G2_BYTES = [0x00, 0x01, 0x7B, 0x7D, 0x41, 0x61, 0xFF, 0x80, 0x3A, 0x6D, 0x0A, 0x0D, 0x20, 0x5C, 0x2E, 0x24]   # incl. newline, CR, space, backslash, dot, dollar
 RULE_NAMES = ["never", "domain", "subdomain", "path1", "path2", "path3", "path4"]
 
 
@@ -148,7 +148,18 @@ class Session(object):
         d = self.r.choice(self.p.get("defaults", ["domain", "domain", "never", "subdomain", "path1"]))
         self.dflt = d
         self.rules_s = self.rules_arg() if self.r.random() < self.p.get("init_rules", 0.4) else "[]"
-        return self.do("init %s %s %s %s" % (self.backend, d, self.rules_s, self.cfg))
+        a = self.do("init %s %s %s %s" % (self.backend, d, self.rules_s, self.cfg))
+        if self.r.random() < self.p.get("big_ids", 0.04):
+            # webentity ids beyond CPython's small-integer cache (> 256): create and delete one webentity over and over
+            p = self.space.lru()
+            n = self.r.choice([257, 260, 300])
+            for k in range(1, n + 1):
+                ans = self.do("create " + brack([hx(p)]))
+                w = ans.split("we={")[1].split(":")[0] if ans.startswith("ok") and "we={" in ans and ":" in ans else None
+                if w is None or not w.isdigit():
+                    break
+                self.do("delete %s %s" % (w, brack([hx(x) for x in self.we_map().get(int(w), [p])])))
+        return a
 
     def current_rules_arg(self):
         rs = getattr(self.impl.t, "webentity_creation_rules", {})
@@ -199,6 +210,29 @@ class Session(object):
         if not data:
             return self.do("batch -")
         return self.do("batch " + ";".join("%s>%s" % (hx(s), ",".join(hx(t) for t in ts)) for s, ts in data.items()))
+
+    def w_cobatch(self):
+        """the crawl batch through its generator, advanced by hand and left at the first state that says done (the
+        caller need not exhaust it), usually followed by a reopening and a creation"""
+        r = self.r
+        pool = [self.page_lru() for _ in range(r.randint(1, 4))]
+        data = {}
+        for _ in range(r.randint(1, 3)):
+            s_ = r.choice(pool)
+            data[s_] = [r.choice(pool) if r.random() < 0.7 else self.page_lru() for _ in range(r.choice([0, 1, 2, 3]))]
+        for s_, ts in data.items():
+            self.note(s_, *ts); self.pages += [s_] + ts
+        self.co_n = getattr(self, "co_n", 100) + 1
+        self.do("co new %d batch %s" % (self.co_n, ";".join("%s>%s" % (hx(a), ",".join(hx(t) for t in ts)) for a, ts in data.items())))
+        a = "yield"
+        for _ in range(400):
+            a = self.do("co step %d" % self.co_n)
+            if a != "yield":
+                break
+        if self.backend == "file" and self.p.get("w", {}).get("reopen", 1) > 0 and r.random() < 0.6:
+            self.w_reopen()
+            self.w_create()
+        return a
 
     def w_create(self):
         ps = [self.any_lru() for _ in range(self.r.choice([1, 1, 2, 3]))]
@@ -406,7 +440,7 @@ class Session(object):
         self.do("hash")
 
     WRITES = ["addpage", "addpages", "addlinks", "batch", "create", "delete", "addprefix", "rmprefix", "moveprefix",
-              "addrule", "rmrule", "reopen", "clear"]
+              "addrule", "rmrule", "reopen", "clear", "cobatch"]
     READS = ["resolution", "pages", "paginate", "paginatelinks", "mostlinked", "hierarchy", "welinks", "pagelinks",
              "network", "global", "linksiter", "locate", "metrics", "helpers", "hierarchy_all"]
 
@@ -426,4 +460,4 @@ class Session(object):
 
 
 DEFAULT_W = {"addpage": 6, "addpages": 2, "addlinks": 4, "batch": 3, "create": 3, "delete": 1.2, "addprefix": 1.5,
-             "rmprefix": 1, "moveprefix": 0.8, "addrule": 1.5, "rmrule": 0.5, "reopen": 0.8, "clear": 0.25}
+             "rmprefix": 1, "moveprefix": 0.8, "addrule": 1.5, "rmrule": 0.5, "reopen": 0.8, "clear": 0.25, "cobatch": 0.5}
